@@ -2123,6 +2123,12 @@ func mangleDimension(value string, unit string) (string, string, bool) {
 func mangleNumber(t string) (string, bool) {
 	original := t
 
+	// Only mangle the digits before the exponent ("1.50e10" must not become "1.5e1")
+	exponent := ""
+	if e := strings.IndexAny(t, "eE"); e != -1 {
+		t, exponent = t[:e], t[e:]
+	}
+
 	if dot := strings.IndexByte(t, '.'); dot != -1 {
 		// Remove trailing zeros
 		for len(t) > 0 && t[len(t)-1] == '0' {
@@ -2145,6 +2151,7 @@ func mangleNumber(t string) (string, bool) {
 		}
 	}
 
+	t += exponent
 	return t, t != original
 }
 
